@@ -28,7 +28,9 @@ func redactionKeyOf(c *fw.Ctx, fnShort string) (key string, detail string) {
 	var st *types.Struct
 	var tbl fw.Val
 	found := false
-	for _, dc := range fw.DeepCalls(fn, func(n string) bool { return strings.HasPrefix(n, "gmsl.redactEventJSON[") || n == "gmsl.redactEventJSON" }, stopExported) {
+	for _, dc := range fw.DeepCalls(fn, func(n string) bool {
+		return strings.HasPrefix(n, "gmsl.redactEventJSON[") || n == "gmsl.redactEventJSON"
+	}, stopExported) {
 		args := dc.Call.Common().Args
 		if len(args) != 3 {
 			continue
